@@ -58,9 +58,49 @@ def _sha(b):
     return hashlib.sha1(b).hexdigest()[:16]
 
 
+HANG_SECONDS = 1.5
+
+
+class _Hang(BaseException):
+    pass
+
+
+class _deadline:
+    """`with _deadline(s)`: raise _Hang in the main thread when the body runs longer than `s` seconds (None: no limit).
+    Only armed for cyclic exception chains, where the code as found never returns."""
+
+    def __init__(self, seconds):
+        self.seconds = seconds
+        self.old = None
+
+    def __enter__(self):
+        import signal
+        import threading
+        if self.seconds and threading.current_thread() is threading.main_thread():
+            def on_alarm(signum, frame):
+                raise _Hang()
+            self.old = signal.signal(signal.SIGALRM, on_alarm)
+            signal.setitimer(signal.ITIMER_REAL, self.seconds)
+        return self
+
+    def __exit__(self, *a):
+        import signal
+        if self.old is not None:
+            signal.setitimer(signal.ITIMER_REAL, 0)
+            signal.signal(signal.SIGALRM, self.old)
+        return False
+
+
+def _safe_str(e):
+    try:
+        return str(e)
+    except Exception:
+        return "<no str>"
+
+
 def classify_error(e):
     """Map an exception of the save path to a small enum (one name per raising branch)."""
-    t, m = type(e).__name__, str(e)
+    t, m = type(e).__name__, _safe_str(e)
     if isinstance(e, re.error):
         return "regex_error"
     table = [
@@ -119,7 +159,11 @@ class Live:
         e = exc
         guard = set()
         hidden = False
-        while e is not None and id(e) not in guard:
+        self.cyclic = False      # the chain comes back to an exception already visited (`raise e from e`)
+        while e is not None:
+            if id(e) in guard:
+                self.cyclic = True
+                break
             guard.add(id(e))
             cur = []
             tb = e.__traceback__
@@ -150,7 +194,11 @@ class Live:
         visiting = set()
 
         def walk(e, depth):
-            if e is None or id(e) in visiting or depth > 12:
+            if e is not None and id(e) in visiting:
+                # a link back to an exception on the current path: the chain ends here (each exception is visited
+                # once, as the interpreter displays it).  An exception without frames and without links.
+                return dict(tb=[], cause=None, context=None, suppress=False, cut=True)
+            if e is None or depth > 12:
                 return None
             visiting.add(id(e))
             tbf = []
@@ -165,6 +213,31 @@ class Live:
             visiting.discard(id(e))
             return node
         self.graph = walk(exc, 0)
+        # the same object graph with links as indices (cycles stay cycles), for the model's walk with a visited set
+        order, index = [], {}
+        queue = [exc]
+        while queue and len(order) < 40:
+            e = queue.pop(0)
+            if e is None or id(e) in index:
+                continue
+            index[id(e)] = len(order)
+            order.append(e)
+            queue += [e.__cause__, e.__context__]
+        self.nodes = []
+        for e in order:
+            tbf = []
+            tb = e.__traceback__
+            while tb is not None:
+                fid = ids.setdefault(id(tb.tb_frame), len(ids))
+                self.table[fid] = tb.tb_frame
+                tbf.append(fid)
+                tb = tb.tb_next
+            self.nodes.append(dict(tb=tbf, cause=index.get(id(e.__cause__)) if e.__cause__ is not None else None,
+                                   context=index.get(id(e.__context__)) if e.__context__ is not None else None,
+                                   suppress=bool(e.__suppress_context__)))
+        if any((e.__cause__ is not None and id(e.__cause__) not in index) or
+               (e.__context__ is not None and id(e.__context__) not in index) for e in order):
+            self.nodes = None        # more than 40 exceptions: not sent
 
     def describe_table(self):
         return {str(fid): self._describe_frame(fr, fid, None) for fid, fr in sorted(self.table.items())}
@@ -185,16 +258,20 @@ class Live:
                     locs.append([name, True, _sha(b), _canon(v, self.root)])
                 except Exception:
                     locs.append([name, False, None, _canon(v, self.root)])
-            code = None
+            code = tbcode = None
             try:
                 with open(co.co_filename, encoding="utf-8") as fh:
                     lines = fh.read().split("\n")
-                if 1 <= fr.f_lineno <= len(lines):
+                if fr.f_lineno is not None and 1 <= fr.f_lineno <= len(lines):
                     code = lines[fr.f_lineno - 1].strip()
+                if tbl is not None and 1 <= tbl <= len(lines):
+                    tbcode = lines[tbl - 1].strip()
             except Exception:
-                code = None
+                code = tbcode = None
+            # line = the frame's CURRENT line (f_lineno: where it got to while the exception unwound; None when it was
+            # left from an instruction without a line), tbline = the line of the traceback entry (what the stack trace displays)
             return dict(fid=fid, file=co.co_filename, line=fr.f_lineno, tbline=tbl, name=co.co_name,
-                        qual=co.co_qualname, mod=fr.f_globals.get("__name__"), code=code, locals=locs)
+                        qual=co.co_qualname, mod=fr.f_globals.get("__name__"), code=code, tbcode=tbcode, locals=locs)
 
 
 # ----------------------------------------------------------------------------------------
@@ -265,8 +342,15 @@ def spec_parse(frames, utility):
 
 def _spec_match(p, fr):
     crx, line, fn = p
+    # the documentation: "line_no: the code line number (displayed in the stack trace) of that error frame" -
+    # callers pass frames whose "line" is the one they want matched (see `_as_displayed`)
     return (crx.search(fr["file"]) is not None and (line is None or fr["line"] == line)
             and (fn == "" or fn in (fr["name"], fr["qual"])))
+
+
+def _as_displayed(frames):
+    """the same frames with `line` = the line of the traceback entry (what the stack trace displays)"""
+    return [dict(f, line=(f["tbline"] if f.get("tbline") is not None else f["line"])) for f in frames]
 
 
 def _dedup(idxs, frames):
@@ -346,7 +430,8 @@ class C17(Prop):
         "C17_selection_keys", "C17_selection_unique_frames", "C17_selection_total",
         "C17_filter_partial", "C17_filter_fixed", "C17_filter_D7_witness", "C17_skip_independent",
         "C17_mode", "C17_mode_existing",
-        "C17_reader_variable_at", "C17_reader_variable_all", "C17_reader_metadata", "C17_end_to_end")]
+        "C17_reader_variable_at", "C17_reader_variable_all", "C17_reader_metadata", "C17_end_to_end",
+        "C17_cycle_visits_once", "C17_cycle_first")]
     anchors = [
         ("lib/python/pyflyby/_saveframe.py", "_validate_frames"),
         ("lib/python/pyflyby/_saveframe.py", "_get_all_matching_frames"),
@@ -372,7 +457,8 @@ class C17(Prop):
     thorough_deadline_s = 600
     rule = ("call stacks produced by real generated code raising real exceptions (harness/gen_c17.py: depth 1-8, recursion, "
             "shared relay functions, methods, closures, lambdas, generator expressions, class bodies, module level, "
-            "raise-from / implicit context / from None / finally / with / bare re-raise) x selectors (none, count, single, "
+            "raise-from / implicit context / from None / finally / with / bare re-raise / non-matching except* / cyclic "
+            "__cause__ chains / exception objects that do not survive a pickle round trip or have no str()) x selectors (none, count, single, "
             "list, range, open range, partial file:line:function patterns, malformed) x include/exclude lists (valid, invalid, "
             "empty, wrong types; names drawn also from soft keywords, _, __, dunders, digits, non-ASCII identifiers) x "
             "bytes/bytearray locals incl. bytes that are pickles x forced-unpicklable subsets x umasks x pre-existing file x "
@@ -395,7 +481,11 @@ class C17(Prop):
                     "(soft keywords _, match, case, type are valid); int(str) for ASCII digits only",
                     "not modelled: _validate_filename, _get_frame_metadata's best-effort lookups (module name, source line, "
                     "function object are opaque inputs; the oracle checks module name and source line against the live frame)"]
-    assumptions = ["C17_filter_partial: D7 does not strike (d7free: a passed include list keeps at least one valid name) and "
+    assumptions = ["a selector's line is the line of the traceback entry (documented: 'displayed in the stack trace'); the code "
+                   "as found compares the frame's current f_lineno (known finding C17-H1); saved lineno/code may be either",
+                   "a cyclic chain is read as the interpreter displays it: every exception once (C17-H4); no claim about the "
+                   "stored exception_object when the live one does not survive a pickle round trip (C17-H2)",
+                   "C17_filter_partial: D7 does not strike (d7free: a passed include list keeps at least one valid name) and "
                    "local names are identifiers (violated by the implicit '.0' of generator expressions, known finding C17-D3)",
                    "selectors denote frames of the chain Python displays; `raise X from None` contexts are followed by the "
                    "code as found (known finding C17-D2)",
@@ -438,7 +528,40 @@ class C17(Prop):
         return (fl.get("what") == "saveframe called from the top level of a script raised" and case.get("frames") is None
                 and "NoneType" in str(fl.get("err")) and "f_locals" in str(fl.get("err")))
 
-    families = {"toplevel_call_without_frames": _fam_toplevel.__func__,
+    @staticmethod
+    def _fam_cycle(case, fl):
+        return fl.get("what") == "saveframe did not return" and fl.get("cyclic") is True
+
+    @staticmethod
+    def _fam_excobj(case, fl):
+        # the exception OBJECT does not survive a pickle round trip (or has no str()): the whole file is lost
+        if fl.get("exc_roundtrips") is not False and fl.get("exc_str_ok") is not False:
+            return False
+        if fl.get("what") == "saveframe raised although the arguments are well-formed and denote frames":
+            return str((fl.get("err") or {}).get("kind", "")).startswith("other:")
+        return fl.get("what") == "the saved file cannot be loaded"
+
+    @staticmethod
+    def _fam_liveline(case, fl):
+        # frames matched by the line the frame reached after the failure (f_lineno) instead of the line of the
+        # traceback entry: the outcome is exactly what the selector denotes when read with f_lineno
+        if fl.get("live_line") is True:
+            return fl.get("what") in ("saved frame keys differ from what the selector denotes",
+                                      "a range end matches no frame but a file was written",
+                                      "saveframe raised although the arguments are well-formed and denote frames")
+        return False
+
+    @staticmethod
+    def _fam_noneline(case, fl):
+        return (fl.get("none_line") is True and fl.get("live_line") is not True
+                and fl.get("what") == "saveframe raised although the arguments are well-formed and denote frames"
+                and (fl.get("err") or {}).get("type") == "TypeError")
+
+    families = {"frame_without_line_aborts_save": _fam_noneline.__func__,
+                "cyclic_chain_never_terminates": _fam_cycle.__func__,
+                "exception_object_not_picklable": _fam_excobj.__func__,
+                "line_of_live_frame_not_of_traceback": _fam_liveline.__func__,
+                "toplevel_call_without_frames": _fam_toplevel.__func__,
                 "d7_include_list_validated_to_empty": _fam_d7.__func__,
                 "suppressed_context_followed": _fam_suppressed.__func__,
                 "filter_names_a_nonidentifier_local": _fam_nonident.__func__}
@@ -463,7 +586,7 @@ class C17(Prop):
             raise RuntimeError("generated program is broken: %r\n%s" % (e, json.dumps(prog)[:2000]))
         r = rng.random()
         utility = "function" if r < 0.55 else ("script" if r < 0.90 else "bin")
-        if utility == "bin" and prog["entry"] != "direct":
+        if utility == "bin" and (prog["entry"] != "direct" or prog.get("cyclic")):
             utility = "script"
         sel = gen_c17.gen_selector(rng, frames, utility)
         v, x = gen_c17.gen_varfilter(rng, frames, utility)
@@ -475,7 +598,7 @@ class C17(Prop):
                     preexist=(rng.choice([0o600, 0o666, 0o640]) if rng.random() < 0.08 else None),
                     unpick=unpick, flip=flip, qseed=rng.randint(0, 10 ** 6))
 
-    EX_HEADER = "import os as _os\nfrom gen_c17 import Tog, P, BadReduce, Ctx, AppError, REG as _REG\n\n"
+    EX_HEADER = "import os as _os\nfrom gen_c17 import Tog, P, BadReduce, Ctx, AppError, TwoArgError, BadStrError, REG as _REG\n\n"
     EX_FILES = {
         "pkg/alpha.py": EX_HEADER + (
             "def load(_i):\n    data = [1, 2]\n    secret = 'p@ss'\n    type = 'record'\n    _ = b'\\x89PNG'\n    try:\n        _REG['s1'](1)\n"
@@ -491,6 +614,54 @@ class C17(Prop):
             "    \u00e9 = 'e'\n    \u5909\u6570 = bytearray(b'ab')\n    blob = __import__('pickle').dumps({'answer': 42})\n    raise ValueError('boom')\n_REG['s3'] = load\n"),
     }
     EX_SIMPLE = {"gamma.py": EX_HEADER + "def run(_i):\n    x = 1\n    secret = 'p@ss'\n    raise ValueError('boom')\n_REG['s0'] = run\n"}
+
+    # candidate C17-4: cyclic chains
+    EX_CYCLE = {"gamma.py": EX_HEADER + (
+        "def run(_i):\n    x = 1\n    try:\n        raise ValueError('boom')\n    except ValueError as err:\n"
+        "        raise err from err\n_REG['s0'] = run\n")}
+    EX_CYCLE2 = {"gamma.py": EX_HEADER + (
+        "def run(_i):\n    x = 1\n    try:\n        return _REG['s1'](1)\n    except ValueError as err:\n"
+        "        new = RuntimeError('cyc')\n        err.__cause__ = new\n        raise new from err\n_REG['s0'] = run\n\n"
+        "def load(_i):\n    y = 2\n    raise ValueError('boom')\n_REG['s1'] = load\n")}
+    # candidate C17-2: exception objects that do not survive a pickle round trip / have no str()
+    EX_EXCOBJ = {
+        "lambda_arg": "    raise AppError('app', (lambda: 0))\n",
+        "local_class": "    class LocalError(Exception):\n        pass\n    raise LocalError('local')\n",
+        "lock_attr": "    err = AppError('locked')\n    err.lock = __import__('threading').Lock()\n    raise err\n",
+        "twoarg": "    raise TwoArgError('two', 2)\n",
+        "badstr": "    raise BadStrError('nostr')\n",
+    }
+    # candidate C17-1: the line a frame reached after the failure is not the line of its traceback entry
+    EX_LINES = {"gamma.py": EX_HEADER + (
+        "def run(_i):\n    keep = 1\n    try:\n        return _REG['s1'](1)\n    except ValueError:\n        seen = True\n        raise\n"
+        "_REG['s0'] = run\n\n"
+        "def load(_i):\n    keep = 2\n    try:\n        return _REG['s2'](2)\n    finally:\n        fin = 1\n_REG['s1'] = load\n\n"
+        "def step(_i):\n    keep = 3\n    try:\n        return _REG['s3'](3)\n    except* OSError:\n        pass\n_REG['s2'] = step\n\n"
+        "def helper(_i):\n    y = 4\n    raise ValueError('boom')\n_REG['s3'] = helper\n")}
+
+    def _hunt_cases(self):
+        out = []
+        for files in (self.EX_CYCLE, self.EX_CYCLE2):
+            for s_ in (None, 3, "gamma::", "gamma::run..", ["gamma::run", "gamma::load"]):
+                c = self._mk(files, frames=s_, qseed=len(out), utility=("function", "script")[len(out) % 2]
+                             if not isinstance(s_, list) else "function")
+                c["prog"]["cyclic"] = True
+                out.append(c)
+        for k, body in self.EX_EXCOBJ.items():
+            files = {"gamma.py": self.EX_HEADER + "def run(_i):\n    x = 1\n    secret = 'p@ss'\n" + body + "_REG['s0'] = run\n"}
+            out.append(self._mk(files, frames=2, qseed=len(out)))
+            out.append(self._mk(files, frames="gamma::", utility="script", exclude_variables="secret", qseed=len(out)))
+            out.append(self._mk(files, frames=1, preexist=0o640, qseed=len(out)))
+        out.append(self._mk(self.EX_EXCOBJ and {"gamma.py": self.EX_HEADER + "def run(_i):\n    x = 1\n" + self.EX_EXCOBJ["local_class"]
+                                                + "_REG['s0'] = run\n"}, frames=1, utility="bin", qseed=len(out)))
+        fr = gen_c17.dry_frames(dict(files=self.EX_LINES, entry="direct", main=None, n_tog=0))
+        sels = [None, 1, 2, 3, 4, 9]
+        for (rel, line, name, qual, _), tbl in zip(fr, fr.tblines):
+            for ln in sorted({line, tbl} - {0, None}):
+                sels += ["gamma.py:%d:%s" % (ln, name), ".:%d:" % ln, "gamma.py:%d:.." % ln, ".:%d:..gamma::run" % ln]
+        for s_ in dict.fromkeys(sels):
+            out.append(self._mk(self.EX_LINES, frames=s_, qseed=len(out), utility=("function", "script")[len(out) % 2]))
+        return out
 
     def _mk(self, files, frames=None, variables=None, exclude_variables=None, utility="function", umask=0o022,
             preexist=None, unpick=(), flip=None, qseed=1, n_tog=0):
@@ -543,7 +714,7 @@ class C17(Prop):
         return out
 
     def exhaustive_cases(self, tier, rng):
-        out = self._names_cases(tier, rng)
+        out = self._names_cases(tier, rng) + self._hunt_cases()
         prog = dict(files=self.EX_FILES, entry="direct", main=None, n_tog=2)
         fr = gen_c17.dry_frames(prog)
         pats = []
@@ -675,14 +846,27 @@ class C17(Prop):
             obs["err"] = err
             obs["root"] = root
             live = holder.get("live")
+            obs["cyclic"] = bool(live.cyclic) if live else False
+            if live is not None:
+                try:
+                    pickle.loads(pickle.dumps(live.exc, protocol=5))
+                    obs["exc_roundtrips"] = True
+                except Exception:
+                    obs["exc_roundtrips"] = False
             obs["live"] = holder.get("desc")
             obs["table"] = holder.get("table")
             obs["graph"] = live.graph if live else None
+            obs["nodes"] = live.nodes if live else None
             obs["cfg"] = self._probe_cfg()
-            if live is not None:
+            if live is not None and (err or {}).get("kind") == "hang":
+                obs["impl_all_fids"] = "error:hang"
+            elif live is not None:
                 fidof = {id(fr): fid for fid, fr in live.table.items()}
                 try:
-                    obs["impl_all_fids"] = [fidof.get(id(fr), -1) for fr in sf._get_all_frames_from_exception_obj(live.exc)]
+                    with _deadline(HANG_SECONDS if live.cyclic else None):
+                        obs["impl_all_fids"] = [fidof.get(id(fr), -1) for fr in sf._get_all_frames_from_exception_obj(live.exc)]
+                except _Hang:
+                    obs["impl_all_fids"] = "error:hang"
                 except Exception as e:
                     obs["impl_all_fids"] = "error:" + type(e).__name__
             obs["shown"] = live.shown if live else None
@@ -692,8 +876,13 @@ class C17(Prop):
                 st = os.stat(out)
                 obs["mode"] = stat.S_IMODE(st.st_mode)
                 obs["regular"] = stat.S_ISREG(st.st_mode)
-                with open(out, "rb") as fh:
-                    data = pickle.load(fh)
+                try:
+                    with open(out, "rb") as fh:
+                        data = pickle.load(fh)
+                except Exception as e:
+                    # the call succeeded but what it wrote cannot be loaded (by any reader)
+                    obs["load_err"] = dict(type=type(e).__name__, msg=str(e)[:160])
+                    return obs
                 obs["saved"] = self._describe_saved(data, live, root)
                 obs["reader"] = self._reader(case, out, data, root)
                 if case.get("flip") is not None and util != "bin":
@@ -717,8 +906,10 @@ class C17(Prop):
         import pyflyby
         import pyflyby._saveframe as sf
         old = os.umask(case.get("umask", 0o022))
+        lv = holder.get("live")
         try:
             try:
+              with _deadline(HANG_SECONDS if (lv is not None and lv.cyclic) else None):
                 if util == "function":
                     sys.last_exc = exc
                     # an older, unrelated exception is still recorded under the pre-3.12 names (what an interactive
@@ -738,8 +929,10 @@ class C17(Prop):
                     sf._save_frames_and_exception_info_to_file(
                         filename=fn, frames=fr, variables=v, exclude_variables=x, exception_obj=exc)
                 return None
+            except _Hang:
+                return dict(kind="hang", type="Hang", msg="no return within %s s" % HANG_SECONDS)
             except Exception as e:
-                return dict(kind=classify_error(e), type=type(e).__name__, msg=str(e)[:160])
+                return dict(kind=classify_error(e), type=type(e).__name__, msg=_safe_str(e)[:160])
         finally:
             holder["umask_after"] = os.umask(old)
             if "stale_saved" in holder:
@@ -784,7 +977,7 @@ class C17(Prop):
             except SystemExit as e:
                 return dict(kind="system_exit", type="SystemExit", msg=str(e)[:160])
             except Exception as e:
-                return dict(kind=classify_error(e), type=type(e).__name__, msg=str(e)[:160])
+                return dict(kind=classify_error(e), type=type(e).__name__, msg=_safe_str(e)[:160])
         finally:
             holder["umask_after"] = os.umask(old)
             sf._save_frames_and_exception_info_to_file = orig
@@ -796,7 +989,11 @@ class C17(Prop):
             tb = traceback.format_exception(type(exc), exc, exc.__traceback__)
         except Exception:
             tb = None
-        return dict(exception_string=str(exc), exception_full_string="%s: %s" % (type(exc).__name__, exc),
+        try:
+            es = str(exc)
+        except Exception:
+            es = None                 # no str(): no claim about the two string fields
+        return dict(exception_string=es, exception_full_string=(None if es is None else "%s: %s" % (type(exc).__name__, es)),
                     exception_class_name=type(exc).__name__, exception_class_qualname=type(exc).__qualname__,
                     exception_object=_canon(exc, root), traceback=_canon(tb, root))
 
@@ -1020,7 +1217,7 @@ class C17(Prop):
         else:
             gen_c17.UNPICK.add(t)
         try:
-            err = self._call(case, util, out2, live.exc, {})
+            err = self._call(case, util, out2, live.exc, {"live": live})
             if err is not None:
                 return dict(err=err)
             with open(out2, "rb") as fh:
@@ -1081,16 +1278,31 @@ class C17(Prop):
             filt_ok = True
         except Bad:
             inc, exc, filt_ok = None, set(), False
-        want = spec_keys(parsed, frames) if (parsed is not None and live is not None) else None
+        # a selector's line is "the code line number (displayed in the stack trace)": the line of the traceback entry
+        want = spec_keys(parsed, _as_displayed(frames)) if (parsed is not None and live is not None) else None
+        # the same selector read with each frame's CURRENT line (f_lineno), which is what the code as found compares
+        # (candidate C17-1); differs only when some frame ran on after the failure (finally / except / with)
+        want_live = spec_keys(parsed, frames) if (parsed is not None and live is not None) else None
         # the same denotation if the frames of a suppressed context (`raise X from None`) counted as well
-        want_all = spec_keys(parsed, live_all) if (parsed is not None and live is not None and hidden) else None
+        want_all = spec_keys(parsed, _as_displayed(live_all)) if (parsed is not None and live is not None and hidden) else None
+        none_line = any(f["line"] is None for f in live_all)
+        exc_rt = obs.get("exc_roundtrips")
+        exc_str_ok = (obs.get("exc") or {}).get("exception_string") is not None if obs.get("exc") else None
 
         if obs.get("err") is not None:
+            if obs["err"].get("kind") == "hang":
+                fail("saveframe did not return", err=obs["err"], cyclic=obs.get("cyclic"))
+                return fails
             if util == "bin" and live is None:
                 # validation error before the program ran
                 pass
             if parsed is not None and filt_ok and want not in (None, "error"):
-                fail("saveframe raised although the arguments are well-formed and denote frames", err=obs["err"])
+                fail("saveframe raised although the arguments are well-formed and denote frames", err=obs["err"],
+                     live_line=(want_live == "error" and obs["err"].get("kind") == "range_no_match"),
+                     none_line=none_line, exc_roundtrips=exc_rt, exc_str_ok=exc_str_ok)
+            return fails
+        if obs.get("load_err") is not None:
+            fail("the saved file cannot be loaded", err=obs["load_err"], exc_roundtrips=exc_rt, exc_str_ok=exc_str_ok)
             return fails
         if want_all is not None and want_all != want:
             # one coherent report for this input: the selector reached into frames Python does not display
@@ -1099,6 +1311,8 @@ class C17(Prop):
                 fail("frames of a suppressed context (raise ... from None) were selected" if sup
                      else "saved frame keys differ from what the selector denotes",
                      keys=obs["saved"]["keys"], want=want, suppressed=sup, n_frames=len(frames), n_hidden=len(hidden),
+                     live_line=(not sup and want_live != want and isinstance(want_live, list)
+                                and obs["saved"]["keys"] in want_live),
                      stack=[[f["fid"], os.path.basename(f["file"]), f["line"], f["qual"]] for f in live_all])
             want = None
 
@@ -1113,14 +1327,15 @@ class C17(Prop):
                  missing=saved["missing_exc_fields"])
         # ---- selection ----
         keys = saved["keys"]
+        by_live_line = (want_live != want and isinstance(want_live, list) and keys in want_live)
         if want == "error":
-            fail("a range end matches no frame but a file was written", keys=keys)
+            fail("a range end matches no frame but a file was written", keys=keys, live_line=by_live_line)
         elif want is not None:
             if keys not in want:
                 hid = [k for k in keys if k > shown]
                 fail("saved frame keys differ from what the selector denotes", keys=keys, want=want,
-                     n_frames=len(frames), n_hidden=len(hidden), keys_in_hidden_context=hid,
-                     stack=[[f["fid"], os.path.basename(f["file"]), f["line"], f["qual"]] for f in live_all])
+                     n_frames=len(frames), n_hidden=len(hidden), keys_in_hidden_context=hid, live_line=by_live_line,
+                     stack=[[f["fid"], os.path.basename(f["file"]), f["line"], f.get("tbline"), f["qual"]] for f in live_all])
         # ---- per frame: metadata and variables equal the live values ----
         for k in keys:
             ent = saved["frames"][str(k)]
@@ -1128,14 +1343,19 @@ class C17(Prop):
                 fail("saved key is not the index of a frame of the exception", key=k)
                 continue
             fr = live_all[k - 1]
-            exp = dict(frame_index=k, filename=fr["file"], lineno=fr["line"], function_name=fr["name"],
+            # `lineno` / `code`: the frame's current line (the live value) or, equally admissible, the line of this
+            # traceback entry (what the stack trace shows for key k) - but one of them consistently
+            ln, cd = fr["line"], fr["code"]
+            if fr.get("tbline") is not None and ent.get("lineno") == fr["tbline"] and fr["tbline"] != fr["line"]:
+                ln, cd = fr["tbline"], fr.get("tbcode")
+            exp = dict(frame_index=k, filename=fr["file"], lineno=ln, function_name=fr["name"],
                        function_qualname=fr["qual"],
-                       frame_identifier="%s,%s,%s" % (fr["file"], fr["line"], fr["name"]))
+                       frame_identifier="%s,%s,%s" % (fr["file"], ln, fr["name"]))
             for f, v in exp.items():
                 if ent.get(f) != v:
                     fail("frame metadata differs from the live frame", key=k, field=f, got=ent.get(f), want=v)
-            if fr["code"] is not None and ent.get("code") != fr["code"]:
-                fail("frame metadata differs from the live frame", key=k, field="code", got=ent.get("code"), want=fr["code"])
+            if cd is not None and ent.get("code") != cd:
+                fail("frame metadata differs from the live frame", key=k, field="code", got=ent.get("code"), want=cd)
             if ent.get("module_name") not in (fr["mod"], NOT_FOUND_MODULE):
                 fail("frame metadata differs from the live frame", key=k, field="module_name",
                      got=ent.get("module_name"), want=fr["mod"])
@@ -1173,6 +1393,10 @@ class C17(Prop):
         # ---- exception fields ----
         if obs.get("exc"):
             for f in EXC_FIELDS:
+                if f == "exception_object" and not exc_rt:
+                    continue              # an object that cannot be stored: no claim about what stands in for it
+                if f in ("exception_string", "exception_full_string") and not exc_str_ok:
+                    continue              # str(exception) raises: no claim
                 if saved["exc"].get(f) != obs["exc"].get(f):
                     fail("exception metadata differs from the live exception", field=f,
                          got=str(saved["exc"].get(f))[:200], want=str(obs["exc"].get(f))[:200])
@@ -1268,6 +1492,16 @@ class C17(Prop):
         util = case["utility"]
         if util == "toplevel":
             return []
+        errk = (obs.get("err") or {}).get("kind", "")
+        if errk == "hang" or obs.get("load_err") is not None:
+            return []            # the model has no non-termination; a file that cannot be loaded has no saved mapping
+        if errk.startswith("other:") and (obs.get("exc_roundtrips") is False
+                                          or (obs.get("exc") or {}).get("exception_string", "") is None):
+            return []            # pickling / str() of the exception OBJECT is not modelled (_get_exception_info)
+        if any(f["line"] is None for f in (obs.get("live") or [])) and (
+                obs.get("err") is not None or any((obs["live"][k - 1]["line"] is None) for k in (obs.get("saved") or {}).get("keys", [])
+                                                  if 1 <= k <= len(obs["live"]))):
+            return []            # a frame without a current line: the model's line is a Nat
         table = obs.get("table") or {}
         saved = obs.get("saved") or {}
         opaque = {}
@@ -1279,7 +1513,7 @@ class C17(Prop):
         def frame_json(fid):
             d = table[str(fid)]
             o = opaque.get(fid)
-            return dict(fid=fid, file=d["file"], line=d["line"], name=d["name"], qual=d["qual"],
+            return dict(fid=fid, file=d["file"], line=(d["line"] or 0), name=d["name"], qual=d["qual"],
                         mod=(o["module_name"] if o else ""), code=(o["code"] if o else ""),
                         fun=(o["function_object"]["text"] if o else ""),
                         locals=[[n, rp, bool(pk)] for n, pk, sha, rp in d["locals"]])
@@ -1309,7 +1543,12 @@ class C17(Prop):
                    frames=self._arg_json(case["frames"], "frames"), vars=self._arg_json(case["variables"], "vars"),
                    excl=self._arg_json(case["exclude_variables"], "vars"), exc=exc_json(graph), rx=rx,
                    queries=queries, excf=excf)
-        return [req, dict(op="open", exists=case.get("preexist"), umask=case.get("umask", 0o022))]
+        reqs = [req, dict(op="open", exists=case.get("preexist"), umask=case.get("umask", 0o022))]
+        if obs.get("nodes") and isinstance(obs.get("impl_all_fids"), list):
+            reqs.append(dict(op="chain", cfg=req["cfg"], start=0,
+                             nodes=[dict(tb=[frame_json(f) for f in n["tb"]], cause=n["cause"], context=n["context"],
+                                         suppress=n["suppress"]) for n in obs["nodes"]]))
+        return reqs
 
     @staticmethod
     def _norm_reader(r):
@@ -1325,6 +1564,9 @@ class C17(Prop):
 
     def compare(self, case, obs, resps):
         r, ro = resps[0], resps[1]
+        if len(resps) > 2 and resps[2].get("fids") != obs.get("impl_all_fids"):
+            return "frames of the exception chain (object graph, visited set): impl %s model %s" % (
+                obs.get("impl_all_fids"), resps[2].get("fids"))
         if "rxmiss" in r:
             return "harness: regex table lacks %r" % (r["rxmiss"],)
         if obs.get("err") is not None:
@@ -1388,8 +1630,18 @@ class C17(Prop):
         fr = case["frames"]
         inc("selector_" + ("none" if fr is None else "int" if isinstance(fr, int) else "list" if isinstance(fr, list)
                            else "range" if ".." in fr else "str"))
+        if obs.get("cyclic"):
+            inc("cyclic_chain")
+        if obs.get("exc_roundtrips") is False:
+            inc("exception_object_not_picklable")
+        if any(f.get("tbline") is not None and f["line"] != f["tbline"] for f in (obs.get("live") or [])):
+            inc("frame_line_differs_from_traceback_line")
+        if any(f["line"] is None for f in (obs.get("live") or [])):
+            inc("frame_without_line")
         if obs.get("err"):
             inc("err_" + obs["err"]["kind"])
+        elif obs.get("load_err"):
+            inc("err_saved_file_unloadable")
         else:
             n = len(obs["saved"]["keys"])
             inc("saved_frames_%s" % ("0" if n == 0 else "1" if n == 1 else "2-4" if n <= 4 else ">4"))
